@@ -12,6 +12,8 @@ import FcProofs.Lemmas.Merge
 import FcProofs.Lemmas.MergeStep
 import FcProofs.Lemmas.MergeStructured
 import FcProofs.Lemmas.MergeDecomposition
+import FcProofs.Lemmas.MergeDecomposition3
+import FcProofs.Lemmas.MergeRead
 namespace Fc
 open Fc.C06 Fc.C06.Spec
 
@@ -195,19 +197,6 @@ theorem C06_structured_merge {α} (isPoint : Bool) (d : List (List Nat))
     mergeStructured isPoint d cb zero = wholeField (prodShape (mergedShape isPoint d)) G :=
   mergeStructured_whole isPoint d hne G cb zero hcb
 
-/-
-  Full-strength statement (not proved; modelled as `Fc.structuredDecomposition`, tied to the code by
-  the correspondence on every enumerated lattice decomposition, listing order and extent shift):
-
-    theorem C06_decomposition  — for every axis-aligned decomposition `d3` of the three VTK directions,
-      every origin and every listing `L` that is a permutation of all piece locations,
-      `structuredDecomposition (L.map (pieceExtent d3 origin))` has `cellsPerAxis = d3`,
-      `pieceLocations = L` restricted to the meshed directions and `domainId loc` = position of `loc` in `L`.
-
-  Missing: the assembly of the three axes (`has_dimension` filter, `order[location] = i` with unique
-  locations).  Proved below: the per-axis core.
--/
-
 /-- **C06 (decomposition, one axis).**  An axis cut into pieces of `ns` cells (all positive — or a
     flat direction, which has a single piece without cells), grid starting at lattice index `o`;
     `bs` = the positions along this axis of the listed pieces, in ANY order and with ANY repetitions
@@ -233,14 +222,14 @@ theorem C06_pvtr_line (W : List Int) (ns : List Nat) (hpos : ∀ n ∈ ns, 0 < n
     assembleLine (List.replicate W.length 0) (axisPieces W 0 ns) = some W :=
   assembleLineGo_spec W ns hpos hne _ 0 (by simp) (by simp) (by omega)
 
-/-- **C06 (rectilinear ordinates of the merged grid).**  Direction `dir` of the merged `.pvtr` grid:
+/-- **C06 (rectilinear ordinates, given the consulted pieces).**  Direction `dir` of the merged `.pvtr`
+    grid, for ANY decomposition object `sd`:
     * flat direction whose first listed piece carries the single ordinate `x`: the merged grid has `[x]`;
     * meshed direction with true ordinates `W`, cut into `ns`: if the pieces consulted through
-      `domain_id` are the pieces of this axis in order (this is what `_get_structured_decomposition`
-      provides — modelled and compared with the code on every decomposition, proved per axis in
-      `C06_decomposition_axis_partial`, not proved for the three-axis assembly: hence `_partial`),
-      the merged ordinates are exactly `W`. -/
-theorem C06_pvtr_ordinates_partial (sd : StructuredDecomposition) (pieceOrds : List (List (List Int)))
+      `domain_id` are the pieces of this axis in order, the merged ordinates are exactly `W`.
+    (Formerly `C06_pvtr_ordinates_partial`; its hypothesis is discharged for every axis-aligned
+    decomposition in `C06_pvtr_ordinates` below.) -/
+theorem C06_pvtr_ordinates_given_consulted (sd : StructuredDecomposition) (pieceOrds : List (List (List Int)))
     (dir : Nat) :
     (sd.isMeshed dir = false → sd.mergedExtents.getD dir 0 = 0 →
       ∀ x, ((pieceOrds.getD 0 []).getD dir []).take 1 = [x] → pvtrLine sd pieceOrds dir = some [x]) ∧
@@ -249,17 +238,112 @@ theorem C06_pvtr_ordinates_partial (sd : StructuredDecomposition) (pieceOrds : L
       ((List.range (sd.cellsPerAxis.getD dir []).length).mapM fun i => do
           let id ← sd.domainIdChecked (pvtrDomainLocation sd (sd.meshedDimensions.idxOf dir) i)
           pure ((pieceOrds.getD id []).getD dir [])) = some (axisPieces W 0 ns) →
-      pvtrLine sd pieceOrds dir = some W) := by
-  constructor
-  · intro hm hext x hx
-    unfold pvtrLine
-    simp only [hm, Bool.false_eq_true, if_false]
-    rw [hx, hext]
-    rfl
-  · intro hm W ns hpos hne hlen hext hcons
-    unfold pvtrLine
-    simp only [hm, if_true]
-    rw [hcons, hext]
-    exact C06_pvtr_line W ns hpos hne hlen
+      pvtrLine sd pieceOrds dir = some W) :=
+  ⟨fun hm hext x hx => pvtrLine_flat sd pieceOrds dir hm hext x hx,
+   fun hm W ns hpos hne hlen hext hcons => pvtrLine_meshed sd pieceOrds dir hm W ns hpos hne hlen hext hcons⟩
+
+/-- **C06 (decomposition recovery, three axes).**  `d3` = any axis-aligned decomposition of the three
+    VTK directions (`decompOk`: every direction is flat — the single entry 0 — or meshed with ≥ 1 piece
+    of ≥ 1 cell each; any lattice shape, any dimension 0–3, flat directions anywhere), `origin` = any
+    lower corner of the `WholeExtent`, `L` = the pieces LISTED IN ANY ORDER (a permutation of all piece
+    locations).  From the `Extent` attributes alone `_get_structured_decomposition` recovers
+    * the true cells per piece along every axis, hence the true meshed directions, the true
+      decomposition handed to `StructuredFieldMerger` and the true merged extents;
+    * for every listed piece its true location among the meshed directions;
+    * an `order` / `domain_id` map that is the inverse of the listing: the location of the piece listed
+      at position `i` is inside the `order` array and answers `i`; and every location `ℓ` of the merger
+      is the location of a listed piece — the piece whose extents begin at the `ℓ`-th unique begins —
+      and `domain_id(ℓ)` is the listing position of that piece. -/
+theorem C06_decomposition (d3 : List (List Nat)) (origin : List Int) (L : List (List Nat))
+    (hd : decompOk d3 = true) (hL : L.Perm (locationsIn (piecesShape d3))) :
+    (structuredDecomposition (L.map (pieceExtent d3 origin))).cellsPerAxis = d3.map (·.map Int.ofNat) ∧
+    (structuredDecomposition (L.map (pieceExtent d3 origin))).meshedDimensions = meshedDirs d3 ∧
+    (structuredDecomposition (L.map (pieceExtent d3 origin))).mergerDecomposition = mergerOf d3 ∧
+    (structuredDecomposition (L.map (pieceExtent d3 origin))).mergedExtents =
+      d3.map (fun ns => ((sumList ns : Nat) : Int)) ∧
+    (structuredDecomposition (L.map (pieceExtent d3 origin))).pieceLocations =
+      L.map (restrictLoc (meshedDirs d3)) ∧
+    (∀ i, i < L.length →
+      (structuredDecomposition (L.map (pieceExtent d3 origin))).domainIdChecked
+        (restrictLoc (meshedDirs d3) (L.getD i [])) = some i) ∧
+    (∀ loc ∈ locationsIn (piecesShape (mergerOf d3)), ∃ i, i < L.length ∧
+      restrictLoc (meshedDirs d3) (L.getD i []) = loc ∧
+      (structuredDecomposition (L.map (pieceExtent d3 origin))).domainId loc = i) := by
+  rw [structuredDecomposition_listing d3 origin hd L hL]
+  refine ⟨rfl, sdOf_meshedDimensions d3 L, sdOf_mergerDecomposition d3 L, sdOf_mergedExtents d3 L, rfl,
+    fun i hi => sdOf_domainId d3 hd L hL i hi, ?_⟩
+  intro loc hloc
+  obtain ⟨i, hi, hr⟩ := listing_at d3 hd L hL loc hloc
+  exact ⟨i, hi, hr, by rw [← hr]; exact domainId_of_checked _ _ _ (sdOf_domainId d3 hd L hL i hi)⟩
+
+/-- **C06 (structured parallel file, one field, value level).**  For every decomposition `d3`, every
+    listing order `L` and every extent shift: if the piece listed at position `i` carries the
+    restriction of one global field `G` to its entities (single-valued data), `_merge_point_fields` /
+    `_merge_cell_fields` of the parallel reader — decomposition recovery, `domain_id` lookup and
+    `StructuredFieldMerger` together — return exactly the whole field. -/
+theorem C06_structured_fields {α} (isPoint : Bool) (d3 : List (List Nat)) (origin : List Int)
+    (L : List (List Nat)) (hd : decompOk d3 = true) (hL : L.Perm (locationsIn (piecesShape d3)))
+    (G : Nat → α) (pieceValues : List (List α)) (zero : α)
+    (hv : ∀ i, i < L.length → pieceValues.getD i [] =
+      restrictField isPoint (mergerOf d3) G (restrictLoc (meshedDirs d3) (L.getD i []))) :
+    pvtkMergeField isPoint (L.map (pieceExtent d3 origin)) pieceValues zero =
+      wholeField (prodShape (mergedShape isPoint (mergerOf d3))) G :=
+  pvtkMergeField_listing isPoint d3 origin hd L hL G pieceValues zero hv
+
+/-- **C06 (rectilinear ordinates of the merged grid).**  `W` = the three ordinate arrays of the whole
+    grid (a flat direction has one ordinate); the piece listed at position `i` carries, along every
+    direction, its part `pieceOrdinates` of them (both end points).  Then for every decomposition,
+    listing order and extent shift `PVTRReader._make_structured_mesh` (fixed code 444374c) assembles
+    exactly `W` — no assumption about which pieces are consulted is left. -/
+theorem C06_pvtr_ordinates (d3 : List (List Nat)) (origin : List Int) (L : List (List Nat))
+    (hd : decompOk d3 = true) (hL : L.Perm (locationsIn (piecesShape d3)))
+    (W : List (List Int)) (hW3 : W.length = 3)
+    (hW : ∀ dir, dir < 3 → (W.getD dir []).length = sumList (d3.getD dir []) + 1)
+    (pieceOrds : List (List (List Int)))
+    (hpo : ∀ i, i < L.length → ∀ dir, dir < 3 → (pieceOrds.getD i []).getD dir [] =
+      pieceOrdinates (W.getD dir []) (d3.getD dir []) ((L.getD i []).getD dir 0)) :
+    pvtrOrdinates (structuredDecomposition (L.map (pieceExtent d3 origin))) pieceOrds = some W := by
+  rw [structuredDecomposition_listing d3 origin hd L hL]
+  exact pvtrOrdinates_listing d3 hd L hL W hW3 hW pieceOrds hpo
+
+/-- **C06 (image grid of the merged `.pvti`).**  For every decomposition, listing order and lower
+    corner `origin` of the `WholeExtent`, and every `Origin` / `Spacing` / `Direction` attributes
+    `O`, `S`, `B` (those of the first listed piece): `PVTIReader._make_structured_mesh` (fixed code
+    110e1da) builds exactly the grid `VTIReader._make_mesh` (a3961d2) builds for the whole file —
+    the same cells per direction, the same spacing and basis, and the same origin
+    `O + B·(S ∘ lower)`, because the lowest structured index of all pieces is the lower end of the
+    whole extent. -/
+theorem C06_pvti_mesh (U : Nat) (d3 : List (List Nat)) (origin : List Int) (L : List (List Nat))
+    (hd : decompOk d3 = true) (hL : L.Perm (locationsIn (piecesShape d3)))
+    (O S : List Int) (B : List (List Int)) :
+    pvtiMesh U (structuredDecomposition (L.map (pieceExtent d3 origin))) (L.map (pieceExtent d3 origin)) O S B =
+      some (vtiMesh U (wholeExtent d3 origin) O S B) := by
+  rw [structuredDecomposition_listing d3 origin hd L hL]
+  exact pvtiMesh_listing U d3 origin hd L hL O S B
+
+/-- **C06 (points of the merged `.pvts`).**  `p` = the points of the whole structured grid; the piece
+    listed at position `i` carries its points.  `PVTSReader._make_structured_mesh` returns `p`. -/
+theorem C06_pvts_points (d3 : List (List Nat)) (origin : List Int) (L : List (List Nat))
+    (hd : decompOk d3 = true) (hL : L.Perm (locationsIn (piecesShape d3))) (p : List (List Int))
+    (hp : p.length = prodShape (mergedShape true (mergerOf d3))) :
+    pvtsPoints (L.map (pieceExtent d3 origin))
+      (L.map fun loc3 => (pieceEntityIndices true (mergerOf d3) (restrictLoc (meshedDirs d3) loc3)).map
+        (p.getD · [])) = p :=
+  pvtsPoints_listing d3 origin hd L hL p hp
+
+/-- **C06 (structured parallel file = the whole file).**  `w` = any whole `.vti` / `.vtr` / `.vts`
+    file over a lattice (`wholeOk`: extent, geometry arrays of matching size, distinct field names,
+    data arrays of matching length — any dtypes, any entry shapes), `d3` = ANY axis-aligned
+    decomposition of it, `L` = the pieces listed in ANY order, `pieceFile w d3 origin loc3` = the
+    piece file at `loc3` (its extent, its part of the geometry, its rows of every data array).
+    Reading the parallel file (`_merge_structured`: decomposition recovery, field merging, mesh
+    assembly) yields exactly what the whole file reads as: the same mesh (`C06_pvti_mesh`,
+    `C06_pvtr_ordinates`, `C06_pvts_points`), and every point and cell data array identical in
+    dtype, shape and values (`C06_structured_merge` under the recovered `domain_id`). -/
+theorem C06_structured (U : Nat) (w : SFile) (d3 : List (List Nat)) (origin : List Int) (L : List (List Nat))
+    (hd : decompOk d3 = true) (hL : L.Perm (locationsIn (piecesShape d3)))
+    (hw : wholeOk w d3 origin = true) :
+    pvtkReadStructured U (L.map (pieceFile w d3 origin)) = some (wholeRead U w) :=
+  pvtkReadStructured_listing U w d3 origin hd L hL hw
 
 end Fc
